@@ -38,7 +38,7 @@ CLAIMS["C11"] = ('Panic-freedom, bounded pre-allocation and loop progress of the
 CLAIMS["C01"] = ("Proof-level (Verus, unbounded) that grin's Rust code ASSEMBLES AND ENFORCES the balance equation over an abstract additive group: sum_commitments(overage) = outputs - inputs + overage*H for both signs of the overage and fails on i64::MIN; sum_kernel_excesses = (kernels, kernels + offset*G); verify_kernel_sums accepts iff the two sides are equal; TransactionBody::validate batch-verifies the range proof of EVERY output against that output's own commitment and the signature of every kernel (iterator loop with invariant); Transaction::validate / TransactionBody::validate_read / verify_features / Block::validate return Ok only if every listed rule was checked with the right operands (fee as overage for a tx, minus the subsidy and total-minus-previous offset for a block, coinbase check, lock heights, NRD rule); the overage operand of a transaction is exactly the sum of its kernels' 40-bit fees (Kani, 0..=3 kernels, all fee values); Extension::validate (full-state validation: Chain::validate, fast sync, PIBD) returns Ok only if verify_kernel_sums ran with header.total_overage(genesis had a reward) and header.total_kernel_offset() and, unless fast validation was requested, EVERY range proof and EVERY kernel signature was verified -- verify_kernel_signatures covers every leaf of the kernel MMR whatever the kernel count and batch size (loop invariant); pipe::verify_block_sums stores exactly the sums verified over (parent's stored sums + block); header overage == -60 grin, total_overage, reward (Kani, full domain). NOT decided: that libsecp256k1 implements the group, range proofs and signatures (cryptographic assumptions), and the 'after any accepted history' clause (stored sums vs full state across reorgs).",
     VERUS_TB + KANI_TB + "all commitment arithmetic is libsecp256k1 behind FFI: modelled by assumed group contracts; callees of the validators are uninterpreted predicates.",
     'Verus contracts on extracted real functions over an abstract group + conjunction-of-checks contracts; Kani for the scalar side', "6 C01")
-CLAIMS["C02"] = ("Proof-level (Verus) on the real code of (a) the unspent-leaf bitmap algebra: LeafSet add/remove change exactly one position, rewind(cutoff, rm) yields (old restricted to <= cutoff) union rm as a whole-view postcondition, discard restores the last flushed bitmap; (b) the single-input / single-output admission decision of UTXOView: validate_input returns (out, pos) only if the index maps the commitment to pos, the output MMR holds out at pos-1 and out's commitment is the input's; it fails when the commitment is not indexed or the leaf is gone; validate_output fails on an indexed, still-present duplicate; (c) the state changes of Extension: apply_input succeeds only on an unspent leaf and marks the same position spent in both the output and range-proof MMRs, apply_output refuses an indexed still-unspent duplicate commitment and otherwise pushes output and proof at the same position, apply_block returns Ok only if every output went through apply_output, the inputs passed validate_inputs against this extension's state, every resolved input went through apply_input and the position/spent indexes were updated for exactly those; input_pos_to_rewind; (d) the fork machinery: rewind_and_apply_header_fork / rewind_and_apply_fork rewind to the first common ancestor (of the header being applied / of the current head) and re-apply exactly the stored headers / blocks between that point and the target, oldest first, each block only after coinbase maturity, UTXO validation and block sums were re-verified (termination of the walks not proved); Extension::rewind undoes exactly the blocks above the target, newest first, through rewind_single_block, which rewinds the MMRs to the previous header's sizes handing over exactly the block's spent positions, removes every created output from the position index and restores the entry of every re-unspent output. The chain-level statement over forks, reorganisations, restart and compaction is a history property and is not decided.",
+CLAIMS["C02"] = ("Proof-level (Verus) on the real code of (a) the unspent-leaf bitmap algebra: LeafSet add/remove change exactly one position, rewind(cutoff, rm) yields (old restricted to <= cutoff) union rm as a whole-view postcondition, discard restores the last flushed bitmap; (b) the single-input / single-output admission decision of UTXOView: validate_input returns (out, pos) only if the index maps the commitment to pos, the output MMR holds out at pos-1 and out's commitment is the input's; it fails when the commitment is not indexed or the leaf is gone; validate_output fails on an indexed, still-present duplicate; (c) the state changes of Extension: apply_input succeeds only on an unspent leaf and marks the same position spent in both the output and range-proof MMRs, apply_output refuses an indexed still-unspent duplicate commitment and otherwise pushes output and proof at the same position, apply_block returns Ok only if every output went through apply_output, the inputs passed validate_inputs against this extension's state, every resolved input went through apply_input and the position/spent indexes were updated for exactly those; input_pos_to_rewind (the compaction / rewind protection set is the union of the per-block input bitmaps) and Batch::get_block_input_bitmap (that bitmap holds EXACTLY the positions of the block's spent index -- the real map closure verified as a lifted function); (d) the fork machinery: rewind_and_apply_header_fork / rewind_and_apply_fork rewind to the first common ancestor (of the header being applied / of the current head) and re-apply exactly the stored headers / blocks between that point and the target, oldest first, each block only after coinbase maturity, UTXO validation and block sums were re-verified (termination of the walks not proved); Extension::rewind undoes exactly the blocks above the target, newest first, through rewind_single_block, which rewinds the MMRs to the previous header's sizes handing over exactly the block's spent positions, removes every created output from the position index and restores the entry of every re-unspent output. The chain-level statement over forks, reorganisations, restart and compaction is a history property and is not decided.",
     VERUS_TB + "croaring::Bitmap is C code: its operations are assumed set operations; the LMDB index and output MMR are uninterpreted functions; positions < 2^32-1; index positions >= 1.",
     'Verus contracts on extracted real functions over abstract bitmap / index / MMR views', "6 C02")
 CLAIMS["C03"] = ("The 'head only ever moves to a fully validated block with strictly more cumulative difficulty' clause, proof-level: (Verus, extracted text incl. the extension closures lifted to named functions) "
@@ -56,7 +56,7 @@ CLAIMS["C05"] = ("Cycle verification, proof-level and UNBOUNDED (Verus on the ex
     "CuckarooContext::verify and CuckaroomContext::verify (directed: one simple directed cycle, no node entered twice) return Ok ONLY IF the nonces are strictly ascending and within the edge mask and the 2*size edge endpoints form ONE SIMPLE CYCLE through all `size` edges: starting at endpoint 0 and repeatedly moving to the "
     "UNIQUE other endpoint at the same node and then to the other end of that edge, the walk returns to endpoint 0 for the first time after exactly `size` steps, every node met has exactly two endpoints (no branch is skipped) and all "
     "visited endpoints are distinct -- proved through an invariant of the bucket linked lists (prev = cyclic predecessor inside the bucket), full coverage of a bucket by the inner loop, injectivity of the walk and a pigeonhole bound; "
-    "no index is out of range. The converse (every simple cycle is accepted), termination of the two walking loops, SipHash itself and the Cuckarood variant (pre-hard-fork only; its direction-alternating walk over non-circular lists was not brought under contract) are NOT decided. "
+    "no index is out of range. The three input checks are exact (the wrong-length / edge-too-big / not-ascending errors are returned ONLY for that reason, so an off-by-one there that would reject valid proofs fails a postcondition). The rest of the converse (every simple cycle is accepted), termination of the two walking loops, SipHash itself and the Cuckarood variant (pre-hard-fork only; its direction-alternating walk over non-circular lists was not brought under contract) are NOT decided. "
     "Serialisation (Kani, complete per edge_bits): whatever Proof::read accepts re-encodes to the same bytes (non-zero padding bits refused), every nonce fits edge_bits, decode(encode(p)) == p, edge_bits 0 and >63 refused "
     "(quick: 10 representative edge_bits, thorough: all 63; proof sizes 42, 8, 5). Difficulty from a proof hash/scaling (Verus). BOUNDED stand-ins kept in the thorough tier only: accept <=> cycle for cycle length 4 (Kani, best effort, memory-capped).",
     VERUS_TB + KANI_TB + "siphash_block / sipnode uninterpreted; one assumed fact about u64::leading_zeros (>= 1 below 2^63) used only for `1 + mask`; proofsize in 1..=2^20.",
@@ -74,7 +74,7 @@ CLAIMS["C12"] = ("Aggregation and cut-through, proof-level (Verus, extracted tex
     "are a permutation of the given inputs (same for outputs), the cut slices pair up by commitment, NO commitment remains on both sides, neither remaining side holds a duplicate; it fails ONLY when a duplicate remains after the cut. "
     "transaction::aggregate returns a transaction whose kernels are exactly the concatenation of the operands' kernels, whose offset is the sum of their offsets and whose inputs/outputs are the cut_through result of the concatenated "
     "inputs/outputs (the union minus exactly the matched spend pairs). Order/grouping independence follows from these multiset-level postconditions only up to the sort done by Transaction::new (assumed a permutation). "
-    "deaggregate, validity of the aggregate (needs the group equation of C01 plus libsecp256k1), compact-block conversion and hydration (thread-local random nonce, short ids via SipHash) are not decided.",
+    "Compact blocks (Verus, verbatim functions): CompactBlock::from(block) keeps the header and carries in full exactly the coinbase outputs and coinbase kernels and, for every other kernel, exactly its short id under (header hash, nonce); Block::hydrate_from(cb, txs) keeps the header and yields, as multisets, the cut-through remainder of the transactions plus cb's full outputs / kernels; a proved lemma composes the two into the round trip (same header, same multisets of inputs, outputs, kernels) for transactions that account for exactly the block's non-coinbase part. deaggregate, validity of the aggregate (needs the group equation of C01 plus libsecp256k1), the canonical sort order (so 'identical block' is decided only up to the order fixed by sort_unstable), the selection of transactions by short id (SipHash) and Block::from_reward are not decided.",
     VERUS_TB + "slice::swap via assume_specification (documented behaviour), sort/dedup helpers assumed as stated in the unit header; elements are abstract with a ghost commitment key.",
     "Verus contracts with a merge-state invariant and multiset lemmas on the extracted real functions", "6 C12")
 CLAIMS["C13"] = ('Proof-level (Verus, extracted text): with the feature on, an NRD kernel is refused iff the same excess has an index entry fewer than relative_height blocks below the block being applied, an accepted one is recorded, other variants are untouched (txhashset::apply_kernel_rules); NRDRelativeHeight accepts exactly 1..=10080 (Kani, all u64, in the C10 unit). Block::verify_kernel_lock_heights returns Ok iff no height-locked kernel has lock_height > block height, for any number of kernels (Verus loop invariant); BOUNDED stand-in (<= 3 kernels, Kani): NRD kernels need the flag and header version >= 4, body lock_height == max. Pool side: Chain::verify_tx_lock_height admits a transaction iff its lock height is at most head height + 1. UTXOView::verify_coinbase_maturity refuses a spend unless the height is at least the maturity and the highest-position coinbase being spent lies within the output MMR size of the header `maturity` blocks below (the two iterator chains feeding it are assumed helpers). Per-fork maintenance of the NRD index during rewind and the pool path are not decided.',
@@ -103,8 +103,8 @@ CLAIMS["C20"] = ("The encodings and the message layer, proof-level. (Kani, full 
     "last_path_index for depths 0..=4; the range-proof message: for EVERY identifier with depth 0..=4, both switch modes and every amount, check_output on the builder's own proof_message recovers exactly that identifier and mode "
     "(ProofBuilder and LegacyProofBuilder), a different amount is not recognised, and an arbitrary 20-byte message is accepted only with a zero prefix, a known switch byte and a matching commitment. (Verus, extracted text) "
     "<ViewKey as ProofBuild>::check_output returns None ONLY for a malformed message, a path shorter than the view key's depth, a differing child number at its depth, a hardened step below it, or a derived key that does not match -- "
-    "so outputs at the view key's own depth are recognised. BIP32 derivation, commitments, range-proof create/verify/rewind and blinding arithmetic are libsecp256k1 behind FFI and are not decided.",
-    KANI_TB + VERUS_TB + "the Keychain in the message harnesses is a mock with an injective `commit`; ckd_pub / commit / to_pubkey are uninterpreted in the Verus unit.", "Kani full-domain harnesses on the real functions + Verus contract on the extracted view-key matcher", "6 C20")
+    "so outputs at the view key's own depth are recognised. ExtKeychain::blind_sum (verbatim, its four closures verified as lifted functions) returns EXACTLY from_secret_key(secp_sum(P, N)) with P / N the derived keys and blinding-factor keys of the positive / negative side in order, and fails exactly when secp fails; BlindingFactor::split asks secp for exactly `self - blind_1`. BIP32 derivation, commitments, range-proof create/verify/rewind and the group arithmetic itself (order independence, add-then-subtract) are libsecp256k1 behind FFI and are not decided.",
+    KANI_TB + VERUS_TB + "the Keychain in the message harnesses is a mock with an injective `commit`; ckd_pub / commit / to_pubkey / secp blind_sum / derive_key are uninterpreted in the Verus units; std iterator adaptors are abstract stand-ins (the closures are the real text).", "Kani full-domain harnesses on the real functions + Verus contract on the extracted view-key matcher", "6 C20")
 CLAIMS["C08"] = ("Deductive proof (Verus) on the real PruneList code of the representation invariant every translated read depends on: one cache entry per pruned root in position order, "
     "each the prefix sum of the per-root contributions (2*(2^h-1) nodes, 2^h leaves); get_shift/get_leaf_shift/get_total_* return exactly those prefix sums, calculate_next_* extend them, "
     "append_single and cleanup_subtree preserve the invariant and append / truncate the root sequence as specified; plus AppendOnlyFile::discard/rewind (flushed view restored); PMMRBackend::get_data / get_hash / is_compacted: an element or leaf hash is returned only for a position still in the leaf set (prunable MMR), so a removed leaf never reads as present. "
@@ -113,7 +113,7 @@ CLAIMS["C08"] = ("Deductive proof (Verus) on the real PruneList code of the repr
     "Verus contracts + representation invariant on extracted real functions", "6 C08")
 CLAIMS["C16"] = ("Arithmetic, proof-level (Verus, unbounded): on the real SegmentIdentifier code, for every identifier with height <= 62 and idx*2^height < 2^62 and every mmr_size: the first position is the "
     "position of leaf idx*2^height, a full segment is exactly one complete subtree (last = first + 2^(height+1) - 2, and that position has height `height` in the explicit tree), a partial last segment ends "
-    "at mmr_size - 1; capacity/offset/unpruned size as specified; Desegmenter::calc_bitmap_mmr_sizes (verbatim) never panics and yields leaf count == ceil(output leaves / 1024) and bitmap MMR size == the size of an MMR with that many leaves (found violated on the pinned tree -- a panic for at most 1024 outputs -- and repaired: finding F10). Uses the C07 contracts modularly (included and re-verified). Tamper-resistance of Segment::validate is covered only by the bounded "
+    "at mmr_size - 1; capacity/offset/unpruned size as specified; Desegmenter::calc_bitmap_mmr_sizes (verbatim) never panics and yields leaf count == ceil(output leaves / 1024) and bitmap MMR size == the size of an MMR with that many leaves (found violated on the pinned tree -- a panic for at most 1024 outputs -- and repaired: finding F10). Uses the C07 contracts modularly (included and re-verified). Segment::first_unpruned_parent (verbatim loop): returns the segment root at last+1, or climbs the family branch to the FIRST position whose hash the segment carries, stepping up ONLY IF the bitmap has no set bit in exactly the parent's leaf-index range clamped to the MMR (a narrower or shifted range fails the invariant); Segment::root is abstract there. Tamper-resistance of Segment::validate is covered only by the bounded "
     "C11 no-panic unit; Segmenter/Desegmenter assembly, prunable segments with a bitmap, and 'never finalises a wrong state' are not decided.",
     VERUS_TB, "Verus contracts on extracted real functions, reusing the C07 position-arithmetic proofs", "6 C16")
 BOUNDED_ONLY = set()
